@@ -157,12 +157,18 @@ def rebuild(s, date, mans=()):
 # ------------------------------------------------------------------ the machine
 
 
+def _nm(x):
+    return getattr(x, "name", x)
+
+
 def root_cause(kind, msg):
     """several symptoms, one bucket"""
     if kind.startswith("access:cylindrical."):
         return "access:cylindrical-theta"
     if kind.startswith("raised:pickle:") and kind.endswith("TypeError@orbits/statevector.py:__new__"):
         return "pickle:base-lost"
+    if kind.startswith("raised:clone-") and kind.endswith("TypeError@orbits/statevector.py:__new__"):
+        return "clone:base-lost"
     if kind.startswith("raised:") and "NoneType" in msg and "setfield" in msg:
         return "pickle:base-lost"
     if (kind == "model:pickle:cov" and "<no _data>" in msg) or (
@@ -267,7 +273,7 @@ class Machine:
             d = S.diff(self.shadow[idx], actual)
             if d:
                 fields = "+".join(sorted(f for f, _ in d))
-                if self.opname in H.MAKERS:
+                if self.opname.split("-")[0] in H.MAKERS:
                     kind = f"receiver-changed:{self.opname}:{fields}"
                 else:
                     kind = f"aliasing:{self.link(idx, target)}:{fields}"
@@ -480,11 +486,22 @@ class Machine:
                 if new is o:
                     self.add(f"same-object:{name}", "copy returned the receiver itself")
                 touched.add(n)
-            elif name == "pickle":
-                new = pickle.loads(pickle.dumps(o))
+            elif name in ("pickle", "clone"):
+                how = op.get("how", "pickle")
+                if name == "clone":
+                    self.opname = name = f"clone-{how}"
+                new = {"pickle": lambda: pickle.loads(pickle.dumps(o)), "copy": lambda: _copy.copy(o),
+                       "deepcopy": lambda: _copy.deepcopy(o)}[how]()
                 n = self.new_member(new, dict(s), i, date=new._data["date"])
                 touched.add(n)
-                if not self.convertible(n, "pickle"):
+                # the library compares forms and frames with == / != / is (copy(), the frame setter, Sgp4Beta,
+                # the CCSDS writers): a clone must pass for its original there
+                for what in ("form", "frame"):
+                    a, b = new._data[what], o._data[what]
+                    if a != b or not (a == b):
+                        self.add(f"clone-{what}-not-equal", f"{how}: clone.{what} != original.{what} "
+                                                            f"({a!r} vs {b!r}), although both are '{_nm(b)}'", how=how)
+                if not self.convertible(n, name):
                     # not usable as a pool member: later ops on it would only repeat this failure
                     self.pop_member()
                     touched.discard(n)
@@ -776,6 +793,12 @@ FINDINGS = {
     "c15-pickle-cov-data-lost":
         lambda facet, case, kind, msg, data: kind == "pickle:cov-data-lost" and "pickle" in _ops(case)
         and (any(i["cov"] for i in case["init"]) or "attach_cov" in _ops(case)),
+    "c15-unpickled-form-is-a-clone":
+        lambda facet, case, kind, msg, data: kind == "clone-form-not-equal" and data.get("how") == "pickle"
+        and any(o["op"] == "pickle" or (o["op"] == "clone" and o.get("how") == "pickle") for o in case["ops"]),
+    "c15-unpickled-frame-is-a-clone":
+        lambda facet, case, kind, msg, data: kind == "clone-frame-not-equal" and data.get("how") == "pickle"
+        and any(o["op"] == "pickle" or (o["op"] == "clone" and o.get("how") == "pickle") for o in case["ops"]),
     "c15-as-orbit-shares-data":
         lambda facet, case, kind, msg, data: kind in ("aliasing:as_orbit", "aliasing:as_statevector")
         and _maker_then_mutation(case, ("as_orbit", "as_statevector")),
